@@ -304,6 +304,10 @@ def _restores_saved(first, second, fn) -> bool:
     return False
 
 
+_STR_METHODS = frozenset(('upper', 'lower', 'strip', 'lstrip', 'rstrip', 'casefold', 'title',
+                         'format', 'replace', 'capitalize'))
+
+
 def _classify(an: Analysis, module, name, value, cls):
     """('ok'|'bad', reason) for one module/class level assignment"""
     if value is None:
@@ -339,6 +343,20 @@ def _classify(an: Analysis, module, name, value, cls):
         if short_name in ('TypeVar', 'namedtuple', 'NamedTuple', 'float', 'int', 'frozenset',
                           'tuple', 'str', 'property'):
             return 'ok', 'immutable value'
+        if text in ('os.environ.get', 'os.getenv', 'environ.get', 'getenv'):
+            return 'ok', 'a string from the process environment (immutable)'
+        if short_name in _STR_METHODS and isinstance(value.func, ast.Attribute) and \
+                isinstance(value.func.value, (ast.Name, ast.Constant)):
+            # a string method applied to a module level string
+            inner = value.func.value
+            if isinstance(inner, ast.Constant) and isinstance(inner.value, str):
+                return 'ok', 'immutable value'
+            entries = module.assigns.get(inner.id, []) if isinstance(inner, ast.Name) else []
+            if entries and all(_classify(an, module, inner.id, v, cls)[1] in (
+                    'immutable literal', 'immutable value',
+                    'a string from the process environment (immutable)')
+                    for v, _s in entries):
+                return 'ok', 'immutable value'
         if short_name in ('__make_init__', '__binary_op__', '__comparison_op__'):
             return 'ok', 'generated function'
         binding = an.p.resolve_dotted(module, value.func)
